@@ -53,6 +53,8 @@ class Sym:
         if last == "*":
             if base[0] == "ref":
                 return self.read_key(base[1])
+            if base[0] == "constref":
+                return base[1]
             if base[0] == "box":
                 return base[1]
             if base[0] == "const":
@@ -117,6 +119,8 @@ class Sym:
 
     def operand(self, o):
         if o["k"] == "const":
+            if "promoted" in o and getattr(self.f, "promoted", None) and o["promoted"] < len(self.f.promoted):
+                return ("constref", promoted_value(self.f, o["promoted"]))
             return ("const", op_const(o), o["v"], o.get("fn"))
         p = op_place(o)
         if p is None:
@@ -183,6 +187,24 @@ class Sym:
 
     def call(self, name, t, args, bb):
         callee = t.get("callee") or ""
+        if t.get("via_shim") and len(args) == 2 and args[1][0] == "tuple":
+            # a tuple-variant / tuple-struct constructor used as a function (`.map_err(ReadError::Io)`)
+            adts = getattr(self.f.facts, "adts", {})
+            adt, _, var = name.rpartition("::")
+            a = adts.get(adt) or adts.get(name)
+            if a is not None:
+                if name in adts:
+                    adt, var = name, adts[name]["variants"][0]["name"]
+                v = [x for x in a["variants"] if x["name"] == var]
+                if v and len(v[0]["fields"]) == len(args[1][1]):
+                    names = [x["name"] for x in v[0]["fields"]]
+                    if adt == "std::option::Option":
+                        return ("some", args[1][1][0])
+                    return ("agg", adt, var, dict(zip(names, args[1][1])))
+            if name in ("std::option::Option::<T>::Some", "std::option::Option::Some"):
+                return ("some", args[1][1][0])
+            if name in ("std::result::Result::Ok", "std::result::Result::Err", "std::result::Result::<T, E>::Ok", "std::result::Result::<T, E>::Err"):
+                return ("agg", "std::result::Result", name.rsplit("::", 1)[1], {"0": args[1][1][0]})
         if name == "std::mem::swap" and len(args) == 2:
             a, b = self.deref_arg(args[0]), self.deref_arg(args[1])
             if a is not None and b is not None:
@@ -239,7 +261,30 @@ class Sym:
                 return ("optref", a)
         if name == "std::boxed::Box::<T>::new" and len(args) == 1:
             return args[0]
-        return ("call", name, args, bb)
+        return ("call", name, args, bb, t.get("res_name") or "")
+
+
+_PROM = {}
+
+
+def promoted_value(f, idx):
+    """symbolic value of promoted constant idx of f (what the promoted body's _0 refers to)"""
+    pf = f.promoted[idx]
+    k = (id(pf),)
+    if k in _PROM:
+        return _PROM[k]
+    v = ("unknown",)
+    try:
+        paths = enumerate_paths(pf)
+        if len(paths) == 1:
+            st = run_path(pf, paths[0])
+            v = st.read_key((0,))
+            if v[0] == "ref":
+                v = st.read_key(v[1])
+    except CheckerError:
+        pass
+    _PROM[k] = v
+    return v
 
 
 def enumerate_paths(f, start=0, unwind=False, max_paths=256, goals=None, max_len=400):
